@@ -774,9 +774,11 @@ static void generate(const char *tier)
 				if (dev <= 1) { add_item(id, 0, M_DIRECT, 1); add_item(id, 1, M_DIRECT, 1); add_item(id, 2, M_DIRECT, 1); add_item(id, 3, M_UDP, 1); add_item(id, 1, M_TCP, 2); add_item(id, 3, M_TCP, 0); }
 				else if (qt == QT_A) add_item(id, 3, M_UDP, 0);
 			} else {
-				add_item(id, 3, M_DIRECT, 1);
-				if (dev <= 2) { add_item(id, 0, M_DIRECT, 1); add_item(id, 1, M_DIRECT, 1); add_item(id, 2, M_DIRECT, 1); add_item(id, 3, M_UDP, 1); add_item(id, 3, M_TCP, 2); }
-				if (dev <= 1) { add_item(id, 1, M_TCP, 3); add_item(id, 3, M_TCP, 1); }
+				/* thorough: <=2 deviations: every prefix direct and over UDP, TCP cut plans, whole message without 0x20/CNAME callback;
+				 * <=1: every prefix under all four configurations, every single TCP cut, every prefix over TCP; 3 deviations: whole message */
+				add_item(id, 3, M_DIRECT, dev <= 2 ? 1 : 0);
+				if (dev <= 2) { add_item(id, 0, M_DIRECT, 0); add_item(id, 3, M_UDP, 1); add_item(id, 3, M_TCP, 2); add_item(id, 3, M_TCP, 0); }
+				if (dev <= 1) { add_item(id, 0, M_DIRECT, 1); add_item(id, 1, M_DIRECT, 1); add_item(id, 2, M_DIRECT, 1); add_item(id, 1, M_TCP, 3); add_item(id, 3, M_TCP, 1); }
 			}
 		}
 		/* mutated captures of a compressed CNAME + address + SOA reply */
